@@ -4173,6 +4173,10 @@ Box<ITV>::CC76_widening_assign(const T& y, unsigned* const tp) {
   };
 
   Box& x = *this;
+  // Dimension-compatibility check.
+  if (x.space_dimension() != y.space_dimension()) {
+    x.throw_dimension_incompatible("CC76_widening_assign(y)", y);
+  }
   // If there are tokens available, work on a temporary copy.
   if (tp != nullptr && *tp > 0) {
     Box<ITV> x_tmp(x);
